@@ -108,13 +108,14 @@ theorem reachGraph_wf (sg : SG) : Graph.Wf (reachGraph sg) := by
   simp only [List.mem_append, List.mem_map, List.mem_range] at hes
   rcases hes with ⟨s, _, rfl⟩ | ⟨e, _, rfl⟩
   · simp only [List.mem_append, List.mem_filter, decide_eq_true_eq] at hw
-    rcases hw with hw | hw
+    rcases hw with (hw | hw) | hw
     · omega
     · split at hw
       · split at hw
         · simp only [List.mem_singleton] at hw; omega
         · cases hw
       · cases hw
+    · omega
   · simp only [List.mem_append, List.mem_filter, decide_eq_true_eq, List.mem_map] at hw
     rcases hw with hw | ⟨i, hi, rfl⟩
     · omega
@@ -122,7 +123,8 @@ theorem reachGraph_wf (sg : SG) : Graph.Wf (reachGraph sg) := by
 
 /-- A symbol is reachable iff it is the nonterminal of the first eoi input or there is a non-empty path
 to it in `reachGraph` (plain rules lead to the symbols of their right-hand sides, a set nonterminal to its
-expression, an expression to the symbols and named sets it mentions). -/
+expression, a lookahead nonterminal to the nonterminals of its predicate, an expression to the symbols and
+named sets it mentions). -/
 theorem C15_reachable_spec (sg : SG) (s0 : Nat) (hs : sg.start = some s0) (h0 : s0 < sg.nS) (s : Nat) :
     s ∈ reachable sg ↔ s < sg.nS ∧ (s = s0 ∨ Relation.TransGen (Edge (reachGraph sg)) s0 s) := by
   unfold reachable
@@ -228,7 +230,7 @@ example : nullable exG = some [false, false, false, false, false, true] := by de
 def exSmall : Grammar := { nTerms := 2, nSyms := 3, rules := #[⟨2, [1], 0⟩, ⟨2, [], 0⟩], inputs := #[⟨2, true⟩] }
 
 set_option maxRecDepth 100000 in
-example : setSpec ⟨exSmall, [], [.first 2, .compl (.first 2)]⟩ = .ok [[1], [0]] := by decide +kernel
-example : setSpec ⟨exG, [], [.first 4, .union (.any 1) (.compl (.ref 1))]⟩ = .error := by decide +kernel
+example : setSpec ⟨exSmall, [], [.first 2, .compl (.first 2)], []⟩ = .ok [[1], [0]] := by decide +kernel
+example : setSpec ⟨exG, [], [.first 4, .union (.any 1) (.compl (.ref 1))], []⟩ = .error := by decide +kernel
 
 end TmVerif.TokenSets
